@@ -11,7 +11,7 @@ PRE = 'io::fasta::IndexedReader::<R>::'
 AUDIT = {
     "<io::fasta::IndexedReaderIterator<'a, R> as std::iter::Iterator>::next|index|index(arg1.buf,arg1.buf_idx)<std::vec::Vec<u8>>":
         'guarded by buf_idx < buf.len() in the same condition',
-    "<io::fasta::IndexedReaderIterator<'a, R> as std::iter::Iterator>::next|overflow-add|arg1.buf_idx,1":
+    "<io::fasta::IndexedReaderIterator<'a, R> as std::iter::Iterator>::next|overflow-add|1,arg1.buf_idx":
         'buf_idx < buf.len() <= isize::MAX',
     "<io::fasta::IndexedReaderIterator<'a, R> as std::iter::Iterator>::next|index|index(arg1.buf,0)<std::vec::Vec<u8>>":
         'fill_buffer returned Ok, and it loops `while self.buf.is_empty()`: the buffer holds at least one base',
@@ -33,9 +33,9 @@ AUDIT = {
         'assert!(start <= idx.len): both callers return Err unless stop <= idx.len and start <= stop (rule GD-4 checks that these guards dominate the calls)',
     'io::fasta::IndexedReader::<R>::seek_to|overflow-mul|Div(arg3,arg2.line_bases),arg2.line_bytes':
         'start / line_bases * line_bytes <= file size of the indexed FASTA, which fits u64',
-    'io::fasta::IndexedReader::<R>::seek_to|overflow-add|arg2.offset,Mul(Div(arg3,arg2.line_bases),arg2.line_bytes).0':
+    'io::fasta::IndexedReader::<R>::seek_to|overflow-add|Mul(Div(arg3,arg2.line_bases),arg2.line_bytes).0,arg2.offset':
         'file offsets of an existing file fit u64',
-    'io::fasta::IndexedReader::<R>::seek_to|overflow-add|Add(arg2.offset,Mul(Div(arg3,arg2.line_bases),arg2.line_bytes).0).0,Rem(arg3,arg2.line_bases)':
+    'io::fasta::IndexedReader::<R>::seek_to|overflow-add|Add(Mul(Div(arg3,arg2.line_bases),arg2.line_bytes).0,arg2.offset).0,Rem(arg3,arg2.line_bases)':
         'file offsets of an existing file fit u64',
     "io::fasta::IndexedReaderIterator::<'a, R>::fill_buffer|explicit-panic|panic(lit)<>":
         'assert!(self.bases_left > 0): the only caller (next) calls it on the edge bases_left > 0 (checked by GD-4)',
@@ -80,16 +80,22 @@ def gd4(facts, rep):
                    '!(start > stop) whose other edges return Err; idx/idx_by_rid return Err for unknown names / numbers; '
                    'read_line returns Err(UnexpectedEof) when the underlying reader is exhausted, before consuming')
     n = 0
-    for nm, callee in (('read', 'read_into_buffer'), ('read_iter', 'read_into_iter')):
-        b = ibody(facts, PRE + nm)
+    # the two public read paths are analysed with their private workers (read_into_buffer / read_into_iter, or whatever
+    # they are split into) in place, so the rule does not depend on where the validation is written
+    KEEP2 = KEEP - {'read_into_buffer', 'read_into_iter'}
+    keep2 = lambda pth: pth.rsplit('::', 1)[-1] in KEEP2
+    sigs = {}
+    for nm in ('read', 'read_iter'):
+        b0 = facts.body(PRE + nm)
         key = 'IndexedReader::%s|needs-complete-fetch' % nm
-        if b is None:
+        if b0 is None:
             rep.missing(rule, key, 'not found')
             continue
+        b = inline.inlined(facts, b0, keep2)
         rep.analysed_body(b)
-        site = [bb for bb, t in b.calls() if call_info(t) and call_info(t)['fn'] == PRE + callee]
-        if not site:
-            rep.bad(rule, key, '%s:%s' % (b.file, b.line), 'does not call %s' % callee)
+        seek = [bb for bb, t in b.calls() if call_info(t) and call_info(t)['fn'] == PRE + 'seek_to']
+        if not seek:
+            rep.bad(rule, key, '%s:%s' % (b.file, b.line), 'no seek_to on the read path')
             continue
         some_edges = set()
         err_edges = True
@@ -105,49 +111,49 @@ def gd4(facts, rep):
             if not pl.get('ty', '').startswith('std::option::Option<'):
                 continue
             for v, tgt in t['vals']:
-                if v == 1 and b.edge_dominates((bb, tgt), site[0]):
+                if v == 1 and all(b.edge_dominates((bb, tgt), s_) for s_ in seek):
                     fld = tuple(el.get('f') for el in pl.get('pj', []) if isinstance(el, dict) and 'f' in el)
                     some_edges.add((pl['l'], fld))
                     other = t['else']
                     oreg = eng_gd.region(b, other)
-                    if not err_on(b, oreg) or site[0] in oreg:
+                    if not err_on(b, oreg) or any(s_ in oreg for s_ in seek):
                         err_edges = False
         n += 1
         if len(some_edges) >= 3 and err_edges:
-            rep.ok(rule, key, b.loc(site[0]), '%d Option tests dominate the call; None edges return Err' % len(some_edges))
+            rep.ok(rule, key, b.loc(seek[0]), '%d Option tests dominate the seek; None edges return Err' % len(some_edges))
         else:
-            rep.bad(rule, key, b.loc(site[0]), '%s is reachable although only %d of fetched_idx/start/stop were tested for Some '
-                                               '(or a None edge does not return Err)' % (callee, len(some_edges)))
-    sigs = {}
-    for nm in ('read_into_buffer', 'read_into_iter'):
-        b = ibody(facts, PRE + nm)
+            rep.bad(rule, key, b.loc(seek[0]), 'the file is read although only %d of fetched_idx/start/stop were tested for Some '
+                                               '(or a None edge does not return Err)' % len(some_edges))
+        # ---- interval validation before the seek; roles from the arguments of seek_to(self, &idx, start)
         key = 'IndexedReader::%s|interval-validated-before-seek' % nm
-        if b is None:
-            rep.missing(rule, key, 'not found')
-            continue
-        rep.analysed_body(b)
-        seek = [bb for bb, t in b.calls() if call_info(t) and call_info(t)['fn'] == PRE + 'seek_to']
-        # argument names: idx = arg2, start = arg3, stop = arg4
-        names = {b.local_name(2): 'idx', b.local_name(3): 'start', b.local_name(4): 'stop'}
+        st = b.term(seek[0])
+        IDX = fmt(strip(b.expr_operand(st['args'][1], inline_user=True)))
+        START = fmt(strip(b.expr_operand(st['args'][2], inline_user=True)))
+        cmps = []
+        for g in eng_gd.guards(b):
+            for c, tgt, other in ((g['cmp_true'], g['t'], g['f']), (g['cmp_false'], g['f'], g['t'])):
+                if c is not None:
+                    cmps.append((c, g, tgt, other))
+        STOP = None
+        for c, g, tgt, other in cmps:
+            if c[0] == 'Lt' and c[1] == IDX + '.len':
+                STOP = c[2]
 
         def canon(c):
             out = []
             for x in c[1:]:
-                for k, v in names.items():
+                for k, v in ((IDX, 'idx'), (START, 'start'), (STOP, 'stop')):
                     if k:
-                        x = re.sub(r'\b%s\b' % re.escape(k), v, x)
+                        x = x.replace(k, v) if k == IDX else re.sub(r'(?<![\w.])%s(?![\w.])' % re.escape(k), v, x)
                 out.append(x)
             return (c[0],) + tuple(out)
         need = {('Lt', 'idx.len', 'stop'): None, ('Lt', 'stop', 'start'): None}
         allg = set()
-        for g in eng_gd.guards(b):
-            for c, tgt, other in ((g['cmp_true'], g['t'], g['f']), (g['cmp_false'], g['f'], g['t'])):
-                if c is None:
-                    continue
-                cc = canon(c)
-                allg.add(cc)
-                if cc in need:
-                    need[cc] = (g, tgt, other)
+        for c, g, tgt, other in cmps:
+            cc = canon(c)
+            allg.add(cc)
+            if cc in need:
+                need[cc] = (g, tgt, other)
         sigs[nm] = sorted(x for x in allg if x[0] in ('Lt', 'Le'))
         why = []
         for cc, hit in need.items():
@@ -155,7 +161,7 @@ def gd4(facts, rep):
                 why.append('no test `%s < %s`' % (cc[1], cc[2]))
                 continue
             g, bad_edge, good_edge = hit
-            if not seek or any(not b.edge_dominates((g['bb'], good_edge), s) for s in seek):
+            if any(not b.edge_dominates((g['bb'], good_edge), s_) for s_ in seek):
                 why.append('seek_to is reachable although `%s < %s` may hold' % (cc[1], cc[2]))
             if not err_on(b, eng_gd.region(b, bad_edge) - eng_gd.region(b, good_edge)):
                 why.append('`%s < %s` does not lead to Err' % (cc[1], cc[2]))
@@ -167,8 +173,8 @@ def gd4(facts, rep):
     rule2 = 'SB-2'
     rep.rule(rule2, 'sibling agreement: read_into_buffer and read_into_iter validate the interval with the same comparisons')
     if len(sigs) == 2:
-        a, c = sigs['read_into_buffer'], sigs['read_into_iter']
-        key = 'read_into_buffer-vs-read_into_iter|same-interval-checks'
+        a, c = sigs['read'], sigs['read_iter']
+        key = 'read-vs-read_iter|same-interval-checks'
         core = lambda s: sorted(x for x in s if 'idx.len' in x or 'start' in x[1:] and 'stop' in x[1:])
         if core(a) == core(c) and core(a):
             rep.ok(rule2, key, '', str(core(a)))
